@@ -147,8 +147,12 @@ int __CPROVER_file_local_parser_c_parse_value(struct scanner_s *s, cif_value_tp 
 static int dup_at[NPOS]; static int live_handles;
 int cif_container_get_item_loop(cif_container_tp *c, const UChar *name, cif_loop_tp **loop) { return dup_at[pos + 1] ? CIF_OK : CIF_NOSUCH_ITEM; }
 int cif_container_set_value(cif_container_tp *c, const UChar *name, cif_value_tp *v) { (void) record(S_SET); if (name == NULL || name[0] != '_' || name[1] != (UChar) ('a' + (pos - 1) % 20)) order_violation = 1; return CIF_OK; }
+static int lc2(UChar u) { return (u >= 'A' && u <= 'Z') ? u + 32 : u; }
 int cif_container_create_loop(cif_container_tp *c, const UChar *cat, UChar *names[], cif_loop_tp **loop) {
-    cif_loop_tp *l; (void) record(S_CLOOP);
+    cif_loop_tp *l; int i, j;
+    /* contract of the real function: equivalent names in the list are refused with CIF_DUP_ITEMNAME and nothing is created */
+    for (i = 0; i < NTOK && names[i] != NULL; i++) for (j = 0; j < i; j++) if (lc2(names[i][1]) == lc2(names[j][1])) return CIF_DUP_ITEMNAME;
+    (void) record(S_CLOOP);
     l = (cif_loop_tp *) malloc(sizeof *l); V_MALLOC_OK(l); l->container = c; l->loop_num = 1; l->category = 0; l->names = 0; live_handles++; *loop = l; return CIF_OK; }
 void cif_loop_free(cif_loop_tp *l) { live_handles--; free(l); }
 static int packet_bad, packets_added;
@@ -188,6 +192,9 @@ void harness(void) {
     struct scanner_s sc; cif_handler_tp H = { 0, 0, h_cont_start, h_cont_end, h_cont_start, h_cont_end, h_loop_start, h_loop_end, h_packet_start, h_packet_end, h_item };
     cif_container_tp top; int rc, i, k, d0, all_continue = 1;
     for (i = 0; i < NTOK; i++) { buf[W * i] = (script[i] == 'N') ? '_' : 'v'; buf[W * i + 1] = (UChar) ('a' + i % 20); buf[W * i + 2] = ' '; }
+#ifdef SAME_AT          /* the name token at SAME_AT repeats the spelling of the one at SAME_AS, in the other letter case (a duplicate inside one loop header) */
+    buf[W * SAME_AT + 1] = (UChar) ('A' + SAME_AS % 20);
+#endif
     for (k = 0; k < NKIND; k++) for (i = 0; i < NPOS; i++) {
         int a = 0;
 #ifdef DEV_KIND
@@ -224,7 +231,7 @@ void harness(void) {
     V_ASSERT(!skip_violation, "no handler callback, syntax callback or store operation is made for a bypassed entity");
     V_ASSERT(!after_stop_violation, "END or a positive handler result stops all further callbacks and store operations");
     V_ASSERT(!order_violation, "stored items carry the name that preceded their value");
-#ifndef DUP_AT
+#if !defined(DUP_AT) && !defined(SAME_AT)
     V_ASSERT(!packet_bad, "each stored packet holds the values parsed for it, and the unknown value for columns the document left out");
 #endif
     V_ASSERT(sc.skip_depth >= 0, "the skip depth never goes negative");
